@@ -103,6 +103,7 @@ fn main() {
         "C07" => c07::run(&ctx, &mut rec),
         "C08" => c08::run(&ctx, &mut rec),
         "C09" => c09::run(&ctx, &mut rec),
+        "lazyinit" => c09::run_lazyinit(&ctx, &mut rec),
         "C10" => c10::run(&ctx, &mut rec),
         "C11" => c11::run(&ctx, &mut rec),
         #[cfg(feature = "ark")]
